@@ -55,7 +55,7 @@ def units(tier, seed):
     return out
 
 
-c06.ALPHABETS["required3"] = (("a", "b", "r"), {"a": {}, "b": {}, "r": {"attrs": {"x": {}}}})
+c06.ALPHABETS["required3"] = (("a", "b", "r"), {"a": {}, "b": {}, "r": {"attrs": {"d": {"default": 0}, "x": {}}}})
 
 
 def gen_ok(model, t):
@@ -189,9 +189,13 @@ def ref_wrapping_len(model, r, target):
     return None
 
 
-def check_wrapping(c, res):
+def check_wrapping(c, res, reverse=False):
+    """reverse=True: parents and targets are visited in reverse order (on a fresh Schema object), so that the
+    per-state wrapping caches are filled in a different order than in the forward pass."""
     model, schema = c.model, c.schema
     tnames = list(model.type_names)
+    if reverse:
+        tnames = list(reversed(tnames))
     types = {n: schema.nodes[n] for n in tnames}
     for pname in tnames:
         pt = types[pname]
@@ -348,12 +352,14 @@ def run_unit(u):
     elif u["kind"] == "wrap":
         c = adapters.ctx(u["sid"])
         check_wrapping(c, res)
+        check_wrapping(adapters.Ctx(u["sid"], c.spec), res, reverse=True)
         res.sample({"kind": "wrap", "schema": u["sid"]})
         res.scopes.append({"unit": u["name"], "schemas": 1, "completed": True})
     else:
         for sid, (i, j, k, v) in u["ids"]:
             c = adapters.Ctx(sid, schemas.fgen_spec(i, j, k, v))
             check_wrapping(c, res)
+            check_wrapping(adapters.Ctx(sid, schemas.fgen_spec(i, j, k, v)), res, reverse=True)
             n += 1
         if u["ids"]:
             res.sample({"kind": "wrap", "schema": u["ids"][0][0], "spec": schemas.fgen_spec(*u["ids"][0][1])})
